@@ -10,9 +10,9 @@ are shared. Thm/C05.lean: independence at the model level (any automaton that re
 occurrences gives the same per-string result; re-checked every run).
 """
 import binascii, re
-from vf import core
+from vf import core, acbuild
 
-THM = ["YaraModel.Thm.C05", "YaraModel.Thm.C05Cond", "YaraModel.Thm.AcCert"]
+THM = ["YaraModel.Thm.C05", "YaraModel.Thm.C05Cond", "YaraModel.Thm.AcCert", "YaraModel.Thm.AcBuild"]
 MANIFEST = dict(
     technique="Lean 4 theorem (per-string result is a function of the string and the buffer for EVERY candidate stage meeting the automaton contract) + alone-vs-company / permutation / prefix / source-split differential on the real compiler and scanner",
     text="proof: Thm/C05.lean proves that the modelled per-string result (offsets, admissible lengths/keys) is the same for ANY two candidate stages that each report exactly the occurrences "
@@ -20,7 +20,10 @@ MANIFEST = dict(
          "condition language of Spec/Cond.lean (all constructs, every block layout, file size and external values), that each rule of a rule set gets the same verdict in EVERY larger rule set "
          "that contains it and the rules it refers to, in the same order, among arbitrary other rules before, between and after them (verdict_company_independent, by the frame lemma eval_rename; "
          "verdict_alone for rules naming no other rule). The tie to the code is a differential run: each rule alone vs. in a colliding company, permutations, prefixes "
-         "(monotonicity) and source splits/includes; the automaton contract itself is checked per case through hooks in C01. Rule-set shapes are sampled.",
+         "(monotonicity) and source splits/includes; the automaton contract itself is checked per case through hooks in C01, and Thm/AcBuild.lean proves it for the modelled "
+         "construction of the SHARED automaton for every list of non-empty atoms and every buffer (build_sound / build_candsOK: whatever else is inserted, each string's candidates are exactly "
+         "the occurrences of its atoms); the construction model must build tables EQUAL to the real ones for every company and every generated rule set (text, hex, regex; growth). "
+         "Rule-set shapes are sampled; zero-length atoms (strings without a usable atom) are covered by the table comparison only.",
     design_ref="DESIGN.md §5 C05",
     note=core.TB + "Text strings only in the theorem (hex/regex strings covered by the differential). Global rules are not added to the namespace of the rule under test (excluded by the property).")
 
@@ -160,6 +163,9 @@ def run(tier, replay=None):
     lres = core.lean_check(THM)
     core.proof_coverage(chk, lres, THM)
     b = core.build("asan", harness=["h_scan"])
+    if replay and replay.get("acbuild"):                 # a filed construction mismatch: recompile that rule set, rebuild, compare
+        core.handle_broken_proof(chk, lres, acbuild.replay(chk, b, replay))
+        return chk.finish("proof")
     r = core.rng("C05")
     ng = 60 if tier == "quick" else 2500
     lines, plan = [], []          # plan: (group, rule idx, variant name, line id, reference line id)
@@ -240,6 +246,12 @@ def run(tier, replay=None):
                                                                      "driver": l, "engine": "ac"}, no_input=True)
                 found = True
     chk.cov["ac_certificate"] = {"company_tables_checked": len(acl), "cert_ok": ac_ok}
+    if lres.get("driver_ok"):
+        # construction tie (Thm/AcBuild): the Lean model of ahocorasick.c must build EXACTLY the shared tables from the logged atoms
+        found = acbuild.report(chk, acbuild.compare(outs), {x.split(" ", 1)[0]: x for x in lines}, "company") or found
+        chk.cov["ac_certificate"]["construction_model_equal"] = dict(acbuild.compare.last)
+        if not replay:
+            found = acbuild.run_extra(chk, b, core.rng("C05-acbuild"), "mixed", tier) or found
     nviol, hist, nontriv = 0, {}, set()
     lm = {l.split(" ", 1)[0]: l for l in lines}
     for g, i, variant, lid, ref in plan:
